@@ -70,6 +70,10 @@ type Interp struct {
 	// CallSigs, when non-nil, collects builtin-name(arg types) signatures.
 	CallSigs map[string]bool
 	evalEnv  *Env // lexical environment of the innermost call site (what `eval` sees)
+	// Routes is set by InstallCallRoutes (routes.go): the model then also follows the
+	// builtins that call a callback in an order it does not predict when the callback
+	// fails whatever it is called with.
+	Routes bool
 }
 
 const LangPkg = "lisp"
